@@ -584,6 +584,100 @@ Proof.
     + intros t Ht. apply Hx. apply in_map. eapply subseq_In; eauto.
 Qed.
 
+(* ---------- packing: structural part for every flag setting, and completeness ---------- *)
+Lemma pack_incl f st cap s : incl (pack f st cap s) (received s).
+Proof.
+  unfold pack. destruct (received s) as [|x r] eqn:E; [intros ? []|]. rewrite <- E.
+  destruct (p018 f).
+  - intros t Ht. eapply Permutation_in; [apply Permutation_sym; apply (sort_perm f)|].
+    eapply subseq_In; [apply pack_sorted_subseq | exact Ht].
+  - intros t Ht. eapply subseq_In; [apply subseq_firstn | exact Ht].
+Qed.
+
+Lemma subseq_length {A} (a b : list A) : subseq a b -> (length a <= length b)%nat.
+Proof. induction 1; simpl; lia. Qed.
+
+Lemma cur_cons st k v nm a : cur st ((k, v) :: nm) a = if k =? a then v else cur st nm a.
+Proof. unfold cur. simpl. destruct (k =? a); reflexivity. Qed.
+
+(* a transaction that is not ahead of the state nonce (or is not nonce-checked) is kept by the walk as
+   long as the cap is not reached *)
+Lemma walk_keeps st cap t : forall l nm n,
+  (forall a, st a <= cur st nm a) -> N.of_nat (length l) + n <= cap -> In t l ->
+  trid t <> 0 \/ tnonce t <= st (tsrc t) -> In t (walk st cap l nm n).
+Proof.
+  induction l as [|x r IH]; intros nm n Hm Hc Hin Hok; [destruct Hin|].
+  assert (Hrest : forall nm', (forall a, st a <= cur st nm' a) -> In t r ->
+                  In t (if cap <=? n + 1 then [] else walk st cap r nm' (n + 1))).
+  { intros nm' Hm' Hr. destruct (N.leb_spec cap (n + 1)) as [Hle|Hgt].
+    - exfalso. destruct r; [destruct Hr|]. simpl length in Hc. lia.
+    - apply IH; auto. simpl length in Hc. lia. }
+  simpl. destruct (N.eqb_spec (trid x) 0) as [Hx|Hx].
+  - set (nm1 := match nm_get nm (tsrc x) with Some _ => nm | None => (tsrc x, cur st nm (tsrc x)) :: nm end).
+    assert (H1 : forall a, st a <= cur st nm1 a) by (intro a; unfold nm1; rewrite cur_seed; apply Hm).
+    destruct (N.ltb_spec (cur st nm (tsrc x)) (tnonce x)) as [Hhi|Hlo].
+    + destruct Hin as [->|Hin].
+      * exfalso. destruct Hok as [Hok|Hok]; [contradiction|]. specialize (Hm (tsrc t)). lia.
+      * apply IH; auto. simpl length in Hc. lia.
+    + destruct Hin as [->|Hin]; [left; reflexivity|]. right. apply Hrest; auto.
+      destruct (N.eqb_spec (cur st nm (tsrc x)) (tnonce x)) as [Eq|Ne]; [|exact H1].
+      intro a. rewrite cur_cons. destruct (N.eqb_spec (tsrc x) a) as [<-|Na]; [|apply H1].
+      specialize (Hm (tsrc x)). lia.
+  - destruct Hin as [->|Hin]; [left; reflexivity|]. right. apply Hrest; auto.
+Qed.
+
+Lemma pack_sorted_complete st cap l t :
+  N.of_nat (length l) <= cap -> In t l -> trid t <> 0 \/ tnonce t <= st (tsrc t) ->
+  In t (pack_sorted st cap l).
+Proof.
+  intros Hc Hin Hok. unfold pack_sorted. rewrite firstn_all2.
+  - apply walk_keeps; auto; [intro a; unfold cur; simpl; lia | lia].
+  - pose proof (subseq_length _ _ (walk_subseq st cap l [] 0)). lia.
+Qed.
+
+Lemma pack_complete f st cap s t :
+  N.of_nat (length (received s)) <= cap -> In t (received s) ->
+  trid t <> 0 \/ tnonce t <= st (tsrc t) -> In t (pack f st cap s).
+Proof.
+  intros Hc Hin Hok. unfold pack. destruct (received s) as [|x r] eqn:E; [destruct Hin|]. rewrite <- E in *.
+  destruct (p018 f).
+  - apply pack_sorted_complete; auto.
+    + rewrite <- (Permutation_length (sort_perm f (received s))). exact Hc.
+    + eapply Permutation_in; [apply sort_perm | exact Hin].
+  - rewrite firstn_all2; [exact Hin | lia].
+Qed.
+
+(* at most once, over histories: after a block containing t is marked executed, and until an unmark names
+   its hash, no transaction with that hash is admitted or packed -- for every flag setting *)
+Lemma at_most_once lim ops1 txs ev ops2 t :
+  In t txs -> (forall o, In o ops2 -> ~ unmarks o (thash t)) ->
+  let s := run lim empty (ops1 ++ OMark txs ev :: ops2) in
+  (forall t', thash t' = thash t -> add lim s t' = (s, AErrExist)) /\
+  (forall f st cap t', In t' (pack f st cap s) -> thash t' <> thash t).
+Proof.
+  intros Hin Hno s.
+  assert (He : In (thash t) (exec_keys s)).
+  { unfold s, run. rewrite fold_left_app. simpl fold_left.
+    apply (executed_until_unmarked lim ops2); auto. apply marked_is_executed. exact Hin. }
+  assert (Hi : inv s) by (apply run_inv; apply inv_empty).
+  split.
+  - intros t' E. apply no_readmit. rewrite E. exact He.
+  - intros f st cap t' Hp E. apply pack_incl in Hp. destruct Hi as [_ Hx].
+    apply (Hx (thash t')); [apply in_map; exact Hp | rewrite E; exact He].
+Qed.
+
+Lemma reorg_repackable lim s txs ev t f st cap :
+  In t txs -> N.of_nat (length (received s) + length txs) <= lim ->
+  let s' := unmark lim s txs ev in
+  exists t', In t' (received s') /\ thash t' = thash t /\ ~ In (thash t) (exec_keys s') /\
+    (N.of_nat (length (received s')) <= cap -> trid t' <> 0 \/ tnonce t' <= st (tsrc t') ->
+     In t' (pack f st cap s')).
+Proof.
+  intros Hin Hroom s'. destruct (unmark_pending lim s txs ev t Hin Hroom) as [Hp He]. fold s' in Hp, He.
+  apply in_map_iff in Hp as [t' [E Ht']]. exists t'. repeat split; auto.
+  intros Hc Hok. apply pack_complete; auto.
+Qed.
+
 (* ---------- fine-grained semantics ---------- *)
 Lemma check_push_is_add lim s tid t :
   fstep lim (fstep lim (mkF s []) (FCheck tid t)) (FPush tid) = mkF (fst (add lim s t)) [].
